@@ -25,10 +25,10 @@ INFO = {
  "C19": dict(breaks="C19", change="3-D boundary damping computes the far-face coordinates from grid size * dx with the x and z extents swapped", needs="3-D grid with nx != nz and width >= 1"),
  "C20": dict(breaks="C20", change="(see notes.md)", needs="(see notes.md)"),
  # ---- round 4 (eight properties, told all three earlier changes) ----
- "C01d": dict(rnd=4, breaks="C01", first="see checks_run", change="2-D unbounded Poisson solver clears only the padding of its doubled buffer before each solve, with grid_size_x used for the row slice (one-off full clear in __init__)",
+ "C01d": dict(rnd=4, breaks="C01", first="caught", change="2-D unbounded Poisson solver clears only the padding of its doubled buffer before each solve, with grid_size_x used for the row slice (one-off full clear in __init__)",
               needs="grid wider than tall and the second solve on the same object", strengthening="none needed (all solver buffers are symbolic: arbitrary earlier history)"),
- "C04d": dict(rnd=4, breaks="C04", first="see checks_run", change="3-D step subtracts the per-component mean from the vorticity before the fast-diagonalisation solve", needs="poisson_solver_type='fast_diagonalisation' and a vorticity component with non-zero sum",
-              strengthening="none needed if caught by the step scenario"),
+ "C04d": dict(rnd=4, breaks="C04", first="inconclusive (mean over three axes of a symbolic array unsupported)", change="3-D step subtracts the per-component mean from the vorticity before the fast-diagonalisation solve", needs="poisson_solver_type='fast_diagonalisation' and a vorticity component with non-zero sum",
+              strengthening="multi-axis reductions (sum/mean with an axis tuple, keepdims) on symbolic arrays"),
  "C08d": dict(rnd=4, breaks="C08", first="missed before the strengthening", change="ImmersedBodyFlowInteraction wraps the Eulerian forcing field in np.require(..., ['C','W']): a non-contiguous field is silently copied and the spread force never reaches the caller's field",
               needs="non-C-contiguous Eulerian forcing field", strengthening="fluid+body force balance with the forcing field as the interior of a padded allocation / component-last storage"),
  "C10d": dict(rnd=4, breaks="C10", first="missed before the strengthening", change="ImmersedBodyFlowInteraction wraps the Eulerian forcing field in np.ascontiguousarray: a non-contiguous field is silently copied", needs="non-C-contiguous Eulerian forcing field",
@@ -37,7 +37,7 @@ INFO = {
               strengthening="none needed (same clause as C19c; C13 lists the generator as decided in C19)"),
  "C15d": dict(rnd=4, breaks="C15", first="missed before the strengthening", change="2-D Poisson solver: with num_threads <= 1 the convolution buffer is the Fourier buffer itself and the product is done by numpy in place; with more threads by the generated kernel (different rounding: FMA)",
               needs="comparison of a 1-thread with a multi-thread run", strengthening="structural scenario: aliasing structure of the simulator's arrays and the sequence of compiled kernels of one step must not depend on the thread count"),
- "C17d": dict(rnd=4, breaks="C17", first="see checks_run", change="IO.load no longer compares the stored grid size (relies on the assignment failing - but it broadcasts)", needs="file whose grid differs only on axes of extent 1", strengthening="none needed if caught by the rejection scenario"),
+ "C17d": dict(rnd=4, breaks="C17", first="inconclusive (boundary-hugging model did not replay)", change="IO.load no longer compares the stored grid size (relies on the assignment failing - but it broadcasts)", needs="file whose grid differs only on axes of extent 1 (or any stored grid_size attribute that differs while the data shapes agree)", strengthening="first run inconclusive: the solver's model put the stored spacing exactly on the allclose boundary and the real load rejected it in floating point; the claim now carries robust counterexample goals (exactly one stored parameter clearly off, the others exact)"),
  "C19d": dict(rnd=4, breaks="C19", first="missed before the strengthening", change="Lagrangian Brinkmann kernel accumulates in the output buffer (out = a*body; out += flow; out /= 1+a)", needs="in-place call with the flow-velocity buffer as output",
               strengthening="in-place Brinkmann calls (output = field buffer / = target buffer) for the Lagrangian and the pystencils variants"),
  # ---- round 3 (agents were told both earlier changes; asked for something that is not another incomplete-key cache) ----
